@@ -45,6 +45,9 @@ def simpleEffect (i : Instr) : Option (Nat × Nat) :=
 structure AbsSt where
   h : Nat
   consts : List (Option Int)   -- top of stack first; shorter than h = unknown below
+  /-- heights at which the MARKs of the calls in preparation were executed, innermost first: the five frame words of such a MARK
+  occupy the heights `m+1 … m+5` until its CALL is executed ("pending" frame records) -/
+  marks : List Nat := []
   deriving Repr, DecidableEq, Inhabited
 
 structure Summary where
@@ -59,14 +62,15 @@ structure Summary where
   deriving Repr, Inhabited
 
 def popN (s : AbsSt) (n : Nat) : Option AbsSt :=
-  if n ≤ s.h then some { h := s.h - n, consts := s.consts.drop n } else none
+  if n ≤ s.h then some { s with h := s.h - n, consts := s.consts.drop n } else none
 
 def pushN (s : AbsSt) (n : Nat) (c : Option Int := none) : AbsSt :=
-  { h := s.h + n, consts := (List.replicate n c) ++ s.consts }
+  { s with h := s.h + n, consts := (List.replicate n c) ++ s.consts }
 
-/-- merge at a join: heights must agree; constants are intersected -/
+/-- merge at a join: heights (and the pending MARKs) must agree; constants are intersected -/
 def joinSt (a b : AbsSt) : Option AbsSt :=
-  if a.h == b.h then some { h := a.h, consts := List.zipWith (fun x y => if x == y then x else none) a.consts b.consts } else none
+  if a.h == b.h && a.marks == b.marks then
+    some { h := a.h, consts := List.zipWith (fun x y => if x == y then x else none) a.consts b.consts, marks := a.marks } else none
 
 /-- function regions: `starts[k]` = address of the k-th FUNC_DEF; region k = [starts[k], starts[k+1]) ; the code before the
 first FUNC_DEF is the global initialisation + entry stub (region "top") -/
@@ -93,7 +97,7 @@ def flow (hm : HMap) (work : List Nat) (a : Nat) (s : AbsSt) : Except String (HM
   | some none => .ok (hm.set! a (some s), a :: work)
   | some (some old) =>
     match joinSt old s with
-    | none => .error s!"stack heights disagree at {a}: {old.h} vs {s.h}"
+    | none => .error s!"stack heights (or calls in preparation) disagree at {a}: {old.h} {old.marks} vs {s.h} {s.marks}"
     | some j => if j == old then .ok (hm, work) else .ok (hm.set! a (some j), a :: work)
 
 def isHandlerOp (o : Opc) : Bool := o == .CLEAR_STACK || o == .RETHROW || o == .UNHANDLED_EXCEPTION
@@ -137,7 +141,7 @@ def absStep (md : Module) (starts : List Nat) (a : Nat) (i : Instr) (s : AbsSt) 
     if (md.code[ra - 1]?.map (·.op)) != some .CALL then throw s!"{a}: MARK return address {ra} does not follow a CALL" else
     if !sameRegion ra then throw s!"{a}: MARK return address in another function" else
     -- the call returns to `ra` with the frame popped and one result pushed
-    pure [(ra, pushN s 1), (a + 1, pushN s 5)]
+    pure [(ra, pushN s 1), (a + 1, { pushN s 5 with marks := s.h :: s.marks })]
   | .CALL => do
     let r ← need 1
     -- a CALL that is the target of a MARK is an ordinary call: control continues in the callee and comes back at a+1
@@ -149,7 +153,7 @@ def absStep (md : Module) (starts : List Nat) (a : Nat) (i : Instr) (s : AbsSt) 
     let q := i.w0; let m := i.w1
     if q == 0 then pure [(a + 1, s)] else
     if q + m ≤ s.h then
-      pure [(a + 1, { h := s.h - q, consts := s.consts.take m ++ s.consts.drop (q + m) })]
+      pure [(a + 1, { s with h := s.h - q, consts := s.consts.take m ++ s.consts.drop (q + m) })]
     else
       -- the slide reaches into the parameter block: only the last-call sequence `args; func; SLIDE n+L n+1; CALL` may do
       -- that, and then exactly the n parameters are replaced: height = q + 1, and an unmarked CALL follows
@@ -310,17 +314,89 @@ def handlersOk (md : Module) (hm : HMap) : Bool :=
   (md.exctab.toList.take md.excCount).all fun e =>
     handlerEntry md e.handler && (match hm[e.handler]? with | some (some _) => true | _ => false)
 
-/-- every function entry (`FUNC_DEF`) was reached with the empty frame: height 0 above its parameters -/
-def startsOk (starts : List Nat) (hm : HMap) : Bool :=
-  starts.all fun a => match hm[a]? with | some (some s) => s.h == 0 | _ => false
+/-! ### certificate re-check, third part: frame records of calls in preparation ("pending")
+
+Between a MARK (executed at height `m`) and its CALL the five frame words lie at heights `m+1 … m+5` of the running function's frame.
+`AbsSt.marks` lists these `m`, innermost first.  `pendOkAt` re-checks, on the finished map: the marks are properly nested below the
+height; MARK pushes its height, its return address carries the marks without it; CLEAR_STACK drops them; every other edge keeps them;
+and no instruction pops, slides or writes into the pending words: after popping its operands an instruction still stands at or above
+the top word `m+5` of the innermost pending record (`pendFloor`). -/
+
+/-- the height of the top word of the innermost pending record (0: none) -/
+def pendFloor (ms : List Nat) : Nat := match ms with | [] => 0 | m :: _ => m + 5
+
+/-- pending records are nested: each lies completely below the next inner one, the innermost below the current height -/
+def marksNested (h : Nat) : List Nat → Bool
+  | [] => true
+  | m :: ms => decide (m + 5 ≤ h) && marksNested m ms
+
+/-- the distance below `sp` at which a frame-relative opcode addresses the stack (`none`: not such an opcode) -/
+def frameDist (i : Instr) : Option Int :=
+  match i.op with
+  | .ID_LOCAL | .ID_DIM_LOCAL | .ID_DIM_SLICE | .OP_DUP_INT | .OP_INC_INT | .OP_DEC_INT | .ARRAY_APPEND => some (i32 i.w0 - i32 i.w1)
+  | .VEC_DEREF | .VECREF_VEC_DEREF => some (i32 i.w0)
+  | .DUP => some ((i.w0 : Int) - 1)
+  | .REWRITE => some (i.w0 : Int)
+  | _ => none
+
+/-- the slot at distance `d` below the top (height `h`) is not one of the five words of a pending record -/
+def notPendingWord (h : Nat) (ms : List Nat) (d : Int) : Bool :=
+  ms.all fun m => !(decide ((m : Int) + 1 ≤ (h : Int) - d) && decide ((h : Int) - d ≤ (m : Int) + 5))
+
+/-- the constants pushed by the run of `INT` instructions that ends immediately before address `t` (nearest first = top of stack
+first), as the VM will read them back (`int` objects).  Purely syntactic: control reaches `t` from inside such a run only by falling
+through it (the re-check makes sure that no jump target, return address, function or handler entry lies behind an `INT`). -/
+def intRun (md : Module) : Nat → List Int
+  | 0 => []
+  | t + 1 =>
+    match md.code[t]? with
+    | some i => if i.op == .INT then (bv32 i.w0).toInt :: intRun md t else []
+    | none => []
+
+/-- the successor `t` carries the marks `ms` -/
+def mAt (hm : HMap) (t : Nat) (ms : List Nat) : Bool :=
+  match hm[t]? with | some (some s') => s'.marks == ms | _ => false
+
+def pendOkAt (md : Module) (hm : HMap) (a : Nat) : Bool :=
+  match md.code[a]?, hm[a]? with
+  | some i, some (some s) =>
+    marksNested s.h s.marks &&
+    (match frameDist i with | some d => notPendingWord s.h s.marks d | none => true) &&
+    (match i.op with
+     | .MARK => mAt hm (a + 1) (s.h :: s.marks) && mAt hm i.w0 s.marks && (intRun md i.w0).isEmpty
+     | .SLIDE =>
+       if i.w0 == 0 then mAt hm (a + 1) s.marks
+       else if i.w0 + i.w1 ≤ s.h then decide (pendFloor s.marks + i.w0 + i.w1 ≤ s.h) && mAt hm (a + 1) s.marks
+       else s.marks == [] && mAt hm (a + 1) []
+     | .CLEAR_STACK => mAt hm (a + 1) []
+     | .CALL => decide (pendFloor s.marks + 1 ≤ s.h)   -- the function value lies above the record of the call
+     | .PUSH_PARAM => mAt hm (a + 1) s.marks
+     | .MK_INIT_ARRAY =>
+       match initExts s i.w0 with
+       | some ds => decide (pendFloor s.marks + i.w0 + extsCount ds ≤ s.h) && mAt hm (a + 1) s.marks &&
+                    -- the extents are the constants of the `INT` instructions immediately before
+                    decide (i.w0 ≤ (intRun md a).length) && ds == (intRun md a).take i.w0
+       | none => false
+     | .JUMP => mAt hm ((a : Int) + 1 + i32 i.w0).toNat s.marks && (intRun md ((a : Int) + 1 + i32 i.w0).toNat).isEmpty
+     | .JUMPZ => decide (pendFloor s.marks + 1 ≤ s.h) && mAt hm ((a : Int) + 1 + i32 i.w0).toNat s.marks && mAt hm (a + 1) s.marks &&
+                 (intRun md ((a : Int) + 1 + i32 i.w0).toNat).isEmpty
+     | _ =>
+       match simpleEffect i with
+       | some (p, _) => decide (pendFloor s.marks + p ≤ s.h) && mAt hm (a + 1) s.marks
+       | none => true)
+  | _, _ => true
+
+/-- every function entry (`FUNC_DEF`) was reached with the empty frame: height 0 above its parameters, no call in preparation -/
+def startsOk (md : Module) (starts : List Nat) (hm : HMap) : Bool :=
+  starts.all fun a => (match hm[a]? with | some (some s) => s.h == 0 && s.marks == [] | _ => false) && (intRun md a).isEmpty
 
 /-- address 0 (where the first `nev_execute` starts, with an empty stack) was reached with nothing on the stack -/
 def entryOk (md : Module) (starts : List Nat) (hm : HMap) : Bool :=
-  match hm[0]? with | some (some s) => npAt md starts 0 + s.h == 0 | _ => false
+  match hm[0]? with | some (some s) => npAt md starts 0 + s.h == 0 && s.marks == [] | _ => false
 
 def flowOk (md : Module) (hm : HMap) : Bool :=
   let starts := funcStarts md
-  (List.range md.code.size).all (fun a => flowOkAt md hm a && frameOkAt md starts hm a) && handlersOk md hm && startsOk starts hm &&
+  (List.range md.code.size).all (fun a => flowOkAt md hm a && frameOkAt md starts hm a && pendOkAt md hm a) && handlersOk md hm && startsOk md starts hm &&
   entryOk md starts hm
 
 /-- the verifier proper: summary and the height map (one abstract state per reached address) -/
